@@ -32,7 +32,7 @@ def abc_dlmf(v):
         A0, B0, C0 = jacobi_abc(n, a, b) if MODE == 'symbolic' else jacobi_abc(float(n), a, b)
         check('A', approx(A, A0))
         check('B', approx(B, B0))
-        check('C', approx(C, C0))
+        check('C', Or(n < 1, approx(C, C0)))          # C_0 multiplies P_{-1} = 0: no polynomial depends on it (the code returns 1)
     else:
         which = Bool('aplusb_is_zero')
         a2 = ite(which, -b, -1 - b)
@@ -338,6 +338,13 @@ def orthogonality(which):
             off = G - np.diag(np.diag(G))
             ok = ok and bool(np.allclose(off, 0, atol=1e-9 * max(1, np.abs(np.diag(G)).max()))) and bool((np.diag(G) > 0).all())
         check('orthogonal-under-weight', ok)
+        # the weight itself on the CLOSED interval: (1-x)^alpha (1+x)^beta with 0^0 = 1 at an end point whose exponent is zero
+        wt = get('prysm.polynomials.jacobi.weight')
+        xs = np.array([-1.0, -0.5, 0.0, 0.25, 1.0])
+        okw = True
+        for a, b in ((0.0, 0.0), (0.0, 2.0), (3.0, 0.0), (1.5, 2.0), (0.0, 0.5)):
+            okw = okw and bool(np.allclose(wt(a, b, xs), (1 - xs) ** a * (1 + xs) ** b, rtol=1e-12, atol=0, equal_nan=False))
+        check('weight-on-the-closed-interval', okw)
         note('bounded: jacobi orthogonality n <= %d, five (alpha,beta)' % nmax)
     elif which == 'qbfs-slopes':
         nmax = 10 if big else 6
@@ -390,7 +397,7 @@ def orthogonality(which):
         lists = [[0], [1], [2], [3], [0, 1], [0, 2], [1, 3], [0, 1, 3, 5], [3, 5], [0, 1, 2, 3, 4, 5, 6, 7], [4], [0, 1, 4, 9]]
         ok = {}
         for ns in lists:
-            for a, b in ((0.0, 0.0), (-0.5, -0.5), (1.5, 2.0), (-0.25, -0.75), (0.3, -0.3)):
+            for a, b in ((0.0, 0.0), (-0.5, -0.5), (1.5, 2.0), (-0.25, -0.75), (0.3, -0.3), (0.1 + 0.2, -0.3), (0.1 + 0.2 - 1.0, -0.3)):
                 want = [sp.eval_jacobi(n, a, b, x) for n in ns]
                 ok['jacobi'] = ok.get('jacobi', True) and bool(np.allclose(list(get(P + 'jacobi.jacobi_seq')(ns, a, b, x)), want, rtol=1e-9, atol=1e-9)) \
                     and bool(np.allclose([get(P + 'jacobi.jacobi')(n, a, b, x) for n in ns], want, rtol=1e-9, atol=1e-9))
@@ -409,7 +416,7 @@ def orthogonality(which):
         # first Jacobi recurrence step for alpha + beta in {0, -1} with alpha != beta (the special-cased n = 0 coefficients)
         abc = get(P + 'jacobi.recurrence_abc')
         good = True
-        for a, b in ((-0.25, -0.75), (-0.9, -0.1), (0.3, -0.3), (-0.5, -0.5), (0.5, -0.5)):
+        for a, b in ((-0.25, -0.75), (-0.9, -0.1), (0.3, -0.3), (-0.5, -0.5), (0.5, -0.5), (0.1 + 0.2, -0.3), (0.1 + 0.2 - 1.0, -0.3), (1.3, 0.4)):
             A, B, C = abc(0, a, b)
             good = good and bool(np.allclose(A * x + B, sp.eval_jacobi(1, a, b, x), rtol=1e-12, atol=1e-12))
         check('jacobi-first-recurrence-step', good)
